@@ -558,6 +558,8 @@ func (e *Enc) builtin(fr *Frame, st *State, b *ssa.Builtin, cc *ssa.CallCommon, 
 			return intVal(rt, ln)
 		case *types.Chan:
 			lenA := e.comp(st, "CH:len", "(Array Int Int)")
+			capA := e.comp(st, "CH:cap", "(Array Int Int)")
+			e.assume(st, fmt.Sprintf("(and (<= 0 %s) (<= %s %s))", sel(lenA, a.term()), sel(lenA, a.term()), sel(capA, a.term())))
 			return intVal(rt, sel(lenA, a.term()))
 		case *types.Array:
 			return intVal(rt, fmt.Sprintf("%d", u.Len()))
